@@ -16,13 +16,11 @@ theorem pin_compiler_compile_vectorized_power_gradient_anchor : pin_compiler_com
 theorem pin_compiler_compile_vectorized_unary_gradient_anchor : pin_compiler_compile_vectorized_unary_gradient = "6e886c928b66b5e2" := rfl
 /-- `compile_jacobian` (core/autodiff.py) -/
 theorem pin_autodiff_compile_jacobian_anchor : pin_autodiff_compile_jacobian = "40a13139a06a856b" := rfl
-/-- `_is_scaled_variable_pattern` (core/autodiff.py) -/
-theorem pin_autodiff_is_scaled_variable_pattern_anchor : pin_autodiff_is_scaled_variable_pattern = "42815e8f3d31e8be" := rfl
 /-- `compile_hessian` (core/autodiff.py) -/
 theorem pin_autodiff_compile_hessian_anchor : pin_autodiff_compile_hessian = "50982ad58c3902f9" := rfl
 
 /-- every function the model of C12 transcribes (and no translator covers) is the one it was read from -/
-theorem anchors : pin_compiler_compile_gradient = "19d1f93c3bdc18f8" ∧ pin_compiler_compile_vectorized_power_gradient = "abe0e8d8d48a69e7" ∧ pin_compiler_compile_vectorized_unary_gradient = "6e886c928b66b5e2" ∧ pin_autodiff_compile_jacobian = "40a13139a06a856b" ∧ pin_autodiff_is_scaled_variable_pattern = "42815e8f3d31e8be" ∧ pin_autodiff_compile_hessian = "50982ad58c3902f9" :=
-  ⟨pin_compiler_compile_gradient_anchor, pin_compiler_compile_vectorized_power_gradient_anchor, pin_compiler_compile_vectorized_unary_gradient_anchor, pin_autodiff_compile_jacobian_anchor, pin_autodiff_is_scaled_variable_pattern_anchor, pin_autodiff_compile_hessian_anchor⟩
+theorem anchors : pin_compiler_compile_gradient = "19d1f93c3bdc18f8" ∧ pin_compiler_compile_vectorized_power_gradient = "abe0e8d8d48a69e7" ∧ pin_compiler_compile_vectorized_unary_gradient = "6e886c928b66b5e2" ∧ pin_autodiff_compile_jacobian = "40a13139a06a856b" ∧ pin_autodiff_compile_hessian = "50982ad58c3902f9" :=
+  ⟨pin_compiler_compile_gradient_anchor, pin_compiler_compile_vectorized_power_gradient_anchor, pin_compiler_compile_vectorized_unary_gradient_anchor, pin_autodiff_compile_jacobian_anchor, pin_autodiff_compile_hessian_anchor⟩
 
 end Optyx.Props.PinsC12
